@@ -555,6 +555,30 @@ impl<M: Hash + Clone + Eq, A: Ord + Hash + Clone> Orswot<M, A> {
     }
 //@end
 
+//@extract fn src/orswot.rs "Orswot" add_all
+    pub fn add_all<I: IntoIterator<Item = M>>(&self, members: I, ctx: AddCtx<A>) -> /*@ (r: @*/ Op<M, A> /*@ ) @*/
+    //@ ensures
+    //@     // one dot -- the one of the context handed in -- for all members the caller's iterator yields
+    //@     r is Add, r->Add_dot == ctx.dot,
+    {
+        Op::Add {
+            dot: ctx.dot,
+            members: /*@ crate::stdx5::shim_intoiter_collect_vec( @*/ members /*@ ) @*/ /*@<*/ .into_iter().collect() /*@>*/ ,
+        }
+    }
+//@end
+
+//@extract fn src/orswot.rs "Orswot" rm_all
+    pub fn rm_all<I: IntoIterator<Item = M>>(&self, members: I, ctx: RmCtx<A>) -> /*@ (r: @*/ Op<M, A> /*@ ) @*/
+    //@ ensures r is Rm, r->Rm_clock == ctx.clock,
+    {
+        Op::Rm {
+            clock: ctx.clock,
+            members: /*@ crate::stdx5::shim_intoiter_collect_vec( @*/ members /*@ ) @*/ /*@<*/ .into_iter().collect() /*@>*/ ,
+        }
+    }
+//@end
+
 //@extract fn src/orswot.rs "Orswot" rm
     pub fn rm(&self, member: M, ctx: RmCtx<A>) -> /*@ (r: @*/ Op<M, A> /*@ ) @*/
     //@ ensures r == (Op::Rm { clock: ctx.clock, members: r->Rm_members }), r->Rm_members@ == seq![member],
